@@ -23,6 +23,7 @@ const (
 	kImp
 	kInc
 	kBroken
+	kEmpty // a file of length zero is a file (and a template rendering nothing)
 )
 
 type c16file struct {
@@ -41,6 +42,8 @@ func (f c16file) content(path string) string {
 		return fmt.Sprintf(`N%d@%s<{{include "%s"}}>`, f.Ver, path, c16bases[f.Ref])
 	case kBroken:
 		return fmt.Sprintf(`V%d@%s{{if}}`, f.Ver, path)
+	case kEmpty:
+		return ""
 	}
 	return fmt.Sprintf("V%d@%s", f.Ver, path)
 }
@@ -127,6 +130,8 @@ func (m *c16model) render(s *c16snap) (string, bool) {
 			return out + in, false
 		}
 		return out + in + ">", true
+	case kEmpty:
+		return "", true
 	}
 	return fmt.Sprintf("V%d@%s", s.f.Ver, s.path), true
 }
@@ -210,6 +215,9 @@ func c16run(c *fw.Ctx, idx int) {
 		if r.Intn(9) == 0 {
 			f.Kind = kBroken
 		}
+		if r.Intn(12) == 0 {
+			f.Kind = kEmpty
+		}
 		return f
 	}
 	setFile := func(base int, e string) {
@@ -217,6 +225,9 @@ func c16run(c *fw.Ctx, idx int) {
 		f := newFile(base)
 		m.files[p] = f
 		inner.Set(p, f.content(p))
+		if f.Kind == kEmpty && m.readErr[p] {
+			ld.ReadErrAfter[p] = 0
+		}
 		hist = append(hist, c16op{Op: "SetFile", Arg: p, File: &f})
 	}
 	for b := range c16bases {
@@ -454,6 +465,9 @@ func c16run(c *fw.Ctx, idx int) {
 					hist = append(hist, c16op{Op: "InjectReadError", Arg: p})
 					m.readErr[p] = true
 					ld.ReadErrAfter[p] = r.Intn(4)
+					if m.files[p].Kind == kEmpty {
+						ld.ReadErrAfter[p] = 0 // nothing to read: the fault has to strike at once to strike at all
+					}
 				case 2:
 					hist = append(hist, c16op{Op: "ClearFaults", Arg: p})
 					delete(m.openErr, p)
